@@ -121,7 +121,7 @@ class HTMLScraper(HTMLReader, BaseHTMLScraper):
             result_meta_info = {}
 
         if result_meta_info.get('robots_no_follow'):
-            link_contexts.discard(frozenset(
+            link_contexts.difference_update(frozenset(
                 context for context in link_contexts if context.linked
             ))
 
